@@ -440,6 +440,8 @@ def _bool_eval(f, asg):
 
 
 def run(ctx, chk, tier):
+    from . import c10 as _c10
+    _c10.copy_derivations(ctx, chk, rule="R11.8")   # objects derived by a shallow copy must not keep the parent's caches
     chk.rule_text = ("obligations per return path of bootstrap_sample over the built-in configuration matrix (flags, same-class source, delivered size >= 1), per path of "
                      "_sample_indices (count algebra), mirror pairs of the dual functions, dynamic-method resolution; non-trivial = term mentions source arrays or draws")
     chk.explanation = ("bootstrap_sample and _sample_indices are explored path by path for every built-in (method, stratification, smoothing) combination. Structural clauses are read "
